@@ -393,6 +393,20 @@ def check_adaptive_windows(ctx):
     if not kctxs:
         raise AnalysisError('C06.6: appends are not inside the interval loop')
     ksym = kctxs[0].sym
+    # entry k of a table is the one appended when the table already holds k entries: the interval an iteration describes is its position in the
+    # tables (entries present before the loop + iterations done), whatever the loop variable counts
+    log = [l for l in ev.loop_log if l['lid'] == kctxs[0].lid]
+    if log and log[0].get('lo') is not None and ksym is not None:
+        pre = log[0]['pre'].env
+        lens = set()
+        for nm_, p_ in pos_of.items():
+            if p_ in (0, 1):
+                v0 = pre.get(nm_)
+                lens.add(len(v0.items) if isinstance(v0, Tup) and v0.kind == 'list' else None)
+        if len(lens) == 1 and None not in lens:
+            ksym = ksym - log[0]['lo'] + C(lens.pop())
+        elif log[0]['lo'] != C(1):
+            raise AnalysisError('C06.6: cannot tell which table position an iteration of the interval loop fills')
     sp = SpecEnv(ctx.prog, {'Y': Y, 'n': Num(n), 'k': Num(ksym), 'a': a, 's': s})
     sp.exec('nom = abs(Y[(k+1)*n] - Y[k*n])\ndenom = abs(Y[k*n] - Y[(k-1)*n])\ng = (nom/denom)**s\n'
             'al = int(min(max(g*a/(1+g), 1), a))\nar = int(min(max(a/(1+g), 1), a))\nhalf = int(a/2)\n')
